@@ -1115,9 +1115,58 @@ func checkClockRates(c *Ctx, rule string) {
 				rateParam = po
 			}
 		}
+		// the text of an expression with locals that are defined once, from an accessor
+		// chain (codec := t.remote.Codec(); clockrate := codec.ClockRate), written out
+		ndefs := map[types.Object]int{}
+		defOf := map[types.Object]ast.Expr{}
+		ast.Inspect(fs.Body(), func(q ast.Node) bool {
+			if as, ok := q.(*ast.AssignStmt); ok {
+				for i, l := range as.Lhs {
+					if id, ok := l.(*ast.Ident); ok {
+						if o := info.ObjectOf(id); o != nil {
+							ndefs[o]++
+							if len(as.Lhs) == len(as.Rhs) {
+								defOf[o] = as.Rhs[i]
+							}
+						}
+					}
+				}
+			}
+			return true
+		})
+		var expand func(e ast.Expr, depth int) string
+		expand = func(e ast.Expr, depth int) string {
+			e = unparen(e)
+			switch x := e.(type) {
+			case *ast.Ident:
+				if v, isV := info.Uses[x].(*types.Var); isV && !v.IsField() && ndefs[v] == 1 && defOf[v] != nil && depth < 4 {
+					switch unparen(defOf[v]).(type) {
+					case *ast.SelectorExpr, *ast.CallExpr:
+						pure := true
+						ast.Inspect(defOf[v], func(m ast.Node) bool {
+							if call, isC := m.(*ast.CallExpr); isC && len(call.Args) != 0 {
+								pure = false
+							}
+							return true
+						})
+						if pure {
+							return expand(defOf[v], depth+1)
+						}
+					}
+				}
+				return x.Name
+			case *ast.SelectorExpr:
+				return expand(x.X, depth) + "." + x.Sel.Name
+			case *ast.CallExpr:
+				if len(x.Args) == 0 {
+					return expand(x.Fun, depth) + "()"
+				}
+			}
+			return types.ExprString(e)
+		}
 		okRate := func(e ast.Expr, base string) bool {
 			e = unparen(e)
-			if types.ExprString(e) == base+".remote.Codec().ClockRate" {
+			if types.ExprString(e) == base+".remote.Codec().ClockRate" || expand(e, 0) == base+".remote.Codec().ClockRate" {
 				return true
 			}
 			if id, ok := e.(*ast.Ident); ok && rateParam != nil && info.Uses[id] == rateParam && base == recvName {
@@ -1198,7 +1247,7 @@ func checkClockRates(c *Ctx, rule string) {
 			}
 			n++
 			last := call.Args[len(call.Args)-1]
-			c.Check(types.ExprString(unparen(last)) == types.ExprString(r)+".remote.Codec().ClockRate", rule, k.key("clock rate passed to", f.Name(), "in", fs.Name), call.Pos(), "the receiver's own clock rate", "a track's origin is computed with another track's clock rate")
+			c.Check(types.ExprString(unparen(last)) == types.ExprString(r)+".remote.Codec().ClockRate" || expand(last, 0) == types.ExprString(r)+".remote.Codec().ClockRate", rule, k.key("clock rate passed to", f.Name(), "in", fs.Name), call.Pos(), "the receiver's own clock rate", "a track's origin is computed with another track's clock rate")
 			return true
 		})
 	}
